@@ -239,6 +239,52 @@ def run(ck):
                             why = "`%s` is recomputed (%s) after the key was built from it and before it is stored" % (v.id, m.where(nd.ast))
                 ck.ob("R4", "%s.__new__:stored-%s-is-key" % (k, f), ok, m.where(st),
                       "the interned object's field %s %s: structurally equal expressions stop being one object" % (f, why))
+    # the same for fields stored by __init__ (which receives the arguments __new__ built the key from): the value stored
+    # in `self._f` must be the key component of f, after resolving single-definition locals on both sides
+    from sa.astutil import Resolver as _Res
+    for k in KINDS:
+        nf = m.funcs.get("%s.__new__" % k)
+        inf = m.funcs.get("%s.__init__" % k)
+        if nf is None or inf is None:
+            continue
+        gcalls = [c for c in walk_body(nf) if isinstance(c, ast.Call) and dotted(c.func) == "Expr.get_object" and len(c.args) == 2]
+        if not gcalls:
+            continue
+        key = gcalls[0].args[1]
+        fields = em.fields[k]
+        rn, ri = _Res(nf), _Res(inf)
+        pn = [a.arg for a in nf.args.args[1:]] + ([nf.args.vararg.arg] if nf.args.vararg else [])
+        pi = [a.arg for a in inf.args.args[1:]] + ([inf.args.vararg.arg] if inf.args.vararg else [])
+        ck.ob("R4", "%s:__new__/__init__ signatures" % k, pn == pi, m.where(inf),
+              "__new__%s and __init__%s take different parameters: the key and the stored fields are built from different values" % (pn, pi))
+        if pn != pi:
+            continue
+        if isinstance(key, ast.Tuple):
+            kel = [norm(rn.expand_node(e)) for e in key.elts]
+        elif len(fields) == 1 or (isinstance(key, ast.Name) and "args" in fields and len([f for f in fields if f != "size"]) == 1):
+            kel = None
+            single = norm(rn.expand_node(key))
+        else:
+            continue
+        for st in [n for n in walk_body(inf) if isinstance(n, ast.Assign)]:
+            tg = st.targets[0]
+            pairs = list(zip(tg.elts, st.value.elts)) if isinstance(tg, ast.Tuple) and isinstance(st.value, ast.Tuple) and len(tg.elts) == len(st.value.elts) else [(tg, st.value)]
+            for t, v in pairs:
+                if not (isinstance(t, ast.Attribute) and norm(t.value) == "self" and t.attr.startswith("_")):
+                    continue
+                f = t.attr.lstrip("_")
+                if f not in fields:
+                    continue
+                if kel is not None:
+                    if fields.index(f) >= len(kel):
+                        continue
+                    want = kel[fields.index(f)]
+                else:
+                    want = single
+                got = norm(ri.expand_node(v))
+                ck.ob("R4", "%s.__init__:stored-%s-is-key" % (k, f), got == want, m.where(st),
+                      "the interned object's field %s stores `%s` but the interning key holds `%s`: two objects with equal fields "
+                      "(equal repr / hash / pickle) that are not identical" % (f, got[:60], want[:60]))
     eq = m.func("Expr.__eq__")
     ok = any(isinstance(n, ast.Compare) and isinstance(n.ops[0], ast.Is) and norm(n.left) == "self" for n in walk_body(eq))
     ck.ob("R4", "Expr.__eq__:identity", ok, m.where(eq), "__eq__ has no identity fast path")
